@@ -48,6 +48,9 @@ class Config:
         self.purify_div = purify_div
 
 
+_STOP_AFTER = None      # quick tier, properties without known findings: stop a task after this many failed obligations
+
+
 def set_library_logging(debug):
     import logging
     lg = logging.getLogger('fast_ticc')
@@ -71,6 +74,7 @@ def _run_task(task):
                        max_paths=cfg.max_paths, split_depth=split_depth, prefix=prefix,
                        witness_every=cfg.witness_every, dump_smt=cfg.dump_smt,
                        nonlinear=cfg.nonlinear, robust=cfg.robust, fork_ite=cfg.fork_ite, purify_div=cfg.purify_div)
+    ex.stop_after_violations = _STOP_AFTER
     ex.reset_hooks.append(loader.clear_caches)
     ex.reset_hooks.append(symnp._reset_write_log)
     if _CHECK is not None and hasattr(_CHECK, 'reset'):
@@ -312,6 +316,12 @@ def _main2(a, pid, chk, mutations, seed, t0):
     chk.seed = seed
     chk.tier = a.tier
     configs = chk.configs(a.tier)
+    global _STOP_AFTER
+    has_known = any(k.get('property') == pid and k.get('status') == 'known' for k in load_known_findings())
+    # hundreds of failed obligations in one exploration task mean the tree under test is broken for good: the
+    # counterexamples recorded so far go to replay and the rest of that task is skipped (quick tier only, and
+    # never for a property with recorded known findings, whose expected failures would trip the limit)
+    _STOP_AFTER = 300 if (a.tier == 'quick' and not has_known and not a.canary) else None
     if a.only:
         configs = [c for c in configs if a.only in c.name]
     results = explore(configs, jobs=a.jobs)
